@@ -47,8 +47,8 @@ def step (f : Flags) (c : Call) (o : Outcome) (tr : List Ev) : Flags :=
       if o.ret = 1 then { f with connected := true }
       else if errIsLayer o then { f with connected := false } else f
   | .listen => if o.ret = 1 then { f with listening := true } else f
-  | .shutdown rd wr => if o.ret = 1 ∧ rd ∧ wr ∧ !f.closed then { f with connected := false } else f
-  | .close => if o.ret = 1 then { f with connected := false, closed := true, listening := false } else f
+  | .shutdown rd wr => if o.ret = 1 ∧ rd ∧ wr then { f with connected := false } else f
+  | .close => if o.ret = 1 ∧ !f.closed then { f with connected := false, closed := true, listening := false } else f   -- idempotent
   | _ => f
 
 /-- flags of a socket just made by `p_socket_new` -/
